@@ -1607,7 +1607,7 @@ def impl_of_op(op: str) -> str:
 
 
 LEVEL = {
-    "text": "Lean 4 theorems over executable models of the text codecs (dns/ipv4.py, dns/ipv6.py in full, dns.rdata._escapify, Token.unescape / unescape_to_bytes, the tokenizer as one automaton, _escapify_unicode and the txt_is_utf8 style of the TXT-like types, _wordbreak chunking with concatenate_remaining_identifiers, Python int()/dns.ttl, hex, base64 and base32hex, mnemonic tables (rdatatype, DNSSEC algorithm, CERT type, DSYNC scheme, KEY flags/protocol, rcode), RRSIG times through the civil-calendar conversion (checked exhaustively over 1970-01-01..2106-02-07), NSEC/NSEC3/CSYNC type bitmaps (on top of C15's from_rdtypes), WKS service bitmaps, APL items, IPSECKEY/AMTRELAY gateways, GPOS coordinates (float() range test as exact rational arithmetic), name fields on top of the C01 model under every origin/relativize configuration that does not rewrite names, the generic \\# form with its re-encode check, and a per-type schema table for 65 record classes): inet_aton(inet_ntoa(a)) = a for IPv4 and IPv6 (every zero-run / embedded-IPv4 shape), the quoted character-string round trip for all 256 octets on the octet path, with the code-point path get_string characterised separately (exact below 0x80, counter-example proved), blob round trips under every lossless chunking style, the generic form of unknown and known types, parse(print v) = v through dns.rdata.from_text for all 65 schema classes (parseText_printText), and `accepted from text => encodable to wire` (text_accepts_encodable) for 64 of them (all but AMTRELAY). Tied to the code by a differential correspondence check on every modelled function (print, parse and to_wire direction, malformed streams) and by constants/tables regenerated from the working tree; completed by a direct round-trip / totality / encodability oracle on the implementation over all 69 implemented record classes.",
+    "text": "Lean 4 theorems over executable models of the text codecs (dns/ipv4.py, dns/ipv6.py in full, dns.rdata._escapify, Token.unescape / unescape_to_bytes, the tokenizer as one automaton, _escapify_unicode and the txt_is_utf8 style of the TXT-like types, _wordbreak chunking with concatenate_remaining_identifiers, Python int()/dns.ttl, hex, base64 and base32hex, mnemonic tables (rdatatype, DNSSEC algorithm, CERT type, DSYNC scheme, KEY flags/protocol, rcode), RRSIG times through the civil-calendar conversion (checked exhaustively over 1970-01-01..2106-02-07), NSEC/NSEC3/CSYNC type bitmaps (on top of C15's from_rdtypes), WKS service bitmaps, APL items, IPSECKEY/AMTRELAY gateways, GPOS coordinates (float() range test as exact rational arithmetic), name fields on top of the C01 model under every origin/relativize configuration that does not rewrite names, the generic \\# form with its re-encode check, and a per-type schema table for 65 record classes): inet_aton(inet_ntoa(a)) = a for IPv4 and IPv6 (every zero-run / embedded-IPv4 shape), the quoted character-string round trip for all 256 octets on the octet path, with the code-point path get_string characterised separately (exact below 0x80, counter-example proved), blob round trips under every lossless chunking style, the generic form of unknown and known types, parse(print v) = v through dns.rdata.from_text for all 65 schema classes (parseText_printText), `accepted from text => encodable to wire` (text_accepts_encodable) for 64 of them (all but AMTRELAY), and `accepted from text => to_styled_text does not raise` (text_accepted_prints) for all 65 under every style whose name handling succeeds. Tied to the code by a differential correspondence check on every modelled function (print, parse and to_wire direction, malformed streams) and by constants/tables regenerated from the working tree; completed by a direct round-trip / totality / encodability oracle on the implementation over all 69 implemented record classes.",
     "note": "Trusted: Lean kernel + propext/Classical.choice/Quot.sound; the statements in lean/Props/C05.lean; the correspondence harness and its generators (differential testing bounds the tie). 4 record classes are covered by the oracle only: LOC (binary floating-point arithmetic in altitude/size/precision), SVCB and HTTPS (the parameter syntax depends on token adjacency, `tok.get(want_leading=True)`, which the token model does not carry), OPT (no presentation format). AMTRELAY has a proved text round trip but its to_wire is oracle-only (header octets not in schema order); HIP / TKEY are encodable since commit 18b73c9 bounds their key / other data by 65535 octets; the generic \\# form of HIP, TKEY, TSIG, IPSECKEY, AMTRELAY, APL, WKS is oracle-only (no wire decoder in the model). text_accepts_encodable is stated over the model's own to_wire (encRec, tied by the correspondence op c05.wire.enc); it is not composed with the C02 message codec theorems because C02 models different field kinds. Name fields: proved unchanged for (a) no origin anywhere, (b) absolute names with relativize=False under any origin, (c) the zone-file configuration (absolute origin, relativize=True; printing against no origin or the same origin); in the remaining configurations as_name provably returns nameBack (the derelativized / re-relativized name), which is equal modulo the origin; for relativize_to different from origin, name_field_relativize_to states as_name = relativize(derelativize(m, origin), relativize_to), and the oracle checks every name-bearing type against the relativize=False parse. Per-type status is written to the evidence (coverage.type_status).",
     "technique": "Lean 4 proof (escape and tokenizer automata, combinator round trips lifted over a schema table, IPv6 zero-run selection by exhaustive case analysis of the 256 zero patterns + list theory for split/join) + model-vs-implementation correspondence + direct oracle",
     "design_ref": "DESIGN.md §7 C05",
